@@ -387,12 +387,18 @@ type BlockListMon struct {
 	local.BlockList
 	PushBacks, PopFronts int
 	OnPopFront           func()
+	// OnPushBack runs after a block was appended, i.e. in the middle of a
+	// rotation (the store's write lock is held by the allocating call).
+	OnPushBack func()
 }
 
 func (bl *BlockListMon) PushBack() error {
 	err := bl.BlockList.PushBack()
 	if err == nil {
 		bl.PushBacks++
+		if f := bl.OnPushBack; f != nil {
+			f()
+		}
 	}
 	return err
 }
@@ -412,14 +418,100 @@ type KLMMon struct {
 	local.KeyLocationMap
 	OnPut func(key local.Key, loc local.Location)
 	Puts  int
+	LM    *LockMon
+}
+
+// Get is the lookup as the BlobAccess performs it (harness probes use the
+// embedded KeyLocationMap directly).
+func (k *KLMMon) Get(key local.Key) (local.Location, error) {
+	if k.LM != nil {
+		k.LM.needHeld("KeyLocationMap.Get")
+	}
+	return k.KeyLocationMap.Get(key)
 }
 
 func (k *KLMMon) Put(key local.Key, loc local.Location) error {
+	if k.LM != nil {
+		k.LM.needWrite("KeyLocationMap.Put")
+	}
 	k.Puts++
 	if k.OnPut != nil {
 		k.OnPut(key, loc)
 	}
 	return k.KeyLocationMap.Put(key, loc)
+}
+
+// ---- lock discipline monitor ----
+
+// LockMon checks the locking contract of the local store: Locations carry
+// block indices relative to the head of the block list, so looking one up,
+// resolving it to a getter, opening the getter, allocating space and
+// finalizing a write are only meaningful while the store's lock is held
+// (write lock for mutations). The check is a TryLock/TryRLock probe: it can
+// miss a breach (when another goroutine happens to hold the lock) but can
+// never report one while the caller holds the lock.
+type LockMon struct {
+	Lock *sync.RWMutex
+	mu   sync.Mutex
+	Viol []string
+	// Probes counts the probes made (generator health).
+	Probes int64
+}
+
+func (m *LockMon) flag(what string) {
+	m.mu.Lock()
+	if len(m.Viol) < 4 {
+		m.Viol = append(m.Viol, what)
+	}
+	m.mu.Unlock()
+}
+
+// needHeld: the caller must hold the lock for reading or writing.
+func (m *LockMon) needHeld(what string) {
+	atomic.AddInt64(&m.Probes, 1)
+	if m.Lock.TryLock() {
+		m.Lock.Unlock()
+		m.flag(what + " while the store lock is not held (locations are only valid under the lock)")
+	}
+}
+
+// needWrite: the caller must hold the lock for writing.
+func (m *LockMon) needWrite(what string) {
+	atomic.AddInt64(&m.Probes, 1)
+	if m.Lock.TryRLock() {
+		m.Lock.RUnlock()
+		m.flag(what + " while the store lock is not held for writing")
+	}
+}
+
+// lbmMon is the LocationBlobMap handed to the BlobAccess.
+type lbmMon struct {
+	inner local.LocationBlobMap
+	m     *LockMon
+}
+
+func (l *lbmMon) Get(loc local.Location) (local.LocationBlobGetter, bool) {
+	l.m.needHeld("LocationBlobMap.Get")
+	g, needsRefresh := l.inner.Get(loc)
+	return func(d digest.Digest) buffer.Buffer {
+		l.m.needHeld("a LocationBlobGetter was opened")
+		return g(d)
+	}, needsRefresh
+}
+
+func (l *lbmMon) Put(sizeBytes int64) (local.LocationBlobPutWriter, error) {
+	l.m.needWrite("LocationBlobMap.Put")
+	w, err := l.inner.Put(sizeBytes)
+	if err != nil {
+		return nil, err
+	}
+	return func(b buffer.Buffer) local.LocationBlobPutFinalizer {
+		f := w(b)
+		return func() (local.Location, error) {
+			l.m.needWrite("a LocationBlobPutFinalizer ran")
+			return f()
+		}
+	}, nil
 }
 
 // ---- persistent state source / store monitors ----
@@ -563,6 +655,7 @@ type Store struct {
 	BL      *BlockListMon
 	KLM     *KLMMon
 	LBM     *local.OldCurrentNewLocationBlobMap
+	LockMon *LockMon
 	PBL     *local.PersistentBlockList
 	Source  *SourceMon
 	State   *StoreMon
@@ -699,16 +792,18 @@ func Build(cfg Config, m *Media, opt Options) (*Store, error) {
 	} else {
 		lra = local.NewInMemoryLocationRecordArray(cfg.IndexSize, st.LBM)
 	}
-	st.KLM = &KLMMon{KeyLocationMap: local.NewHashingKeyLocationMap(lra, cfg.IndexSize, st.HashInit, cfg.GetAttempts, cfg.PutAttempts, storageType)}
+	st.LockMon = &LockMon{Lock: st.Lock}
+	st.KLM = &KLMMon{KeyLocationMap: local.NewHashingKeyLocationMap(lra, cfg.IndexSize, st.HashInit, cfg.GetAttempts, cfg.PutAttempts, storageType), LM: st.LockMon}
+	lbm := &lbmMon{inner: st.LBM, m: st.LockMon}
 
 	if cfg.Hierarchical {
-		st.BA = local.NewHierarchicalCASBlobAccess(st.KLM, st.LBM, st.Lock, caps{})
+		st.BA = local.NewHierarchicalCASBlobAccess(st.KLM, lbm, st.Lock, caps{})
 	} else {
 		kf := digest.KeyWithoutInstance
 		if cfg.WithInstance {
 			kf = digest.KeyWithInstance
 		}
-		st.BA = local.NewFlatBlobAccess(st.KLM, st.LBM, kf, st.Lock, storageType, caps{})
+		st.BA = local.NewFlatBlobAccess(st.KLM, lbm, kf, st.Lock, storageType, caps{})
 	}
 	return st, nil
 }
@@ -722,6 +817,11 @@ func (st *Store) Violations() []string {
 	st.Factory.mu.Lock()
 	v = append(v, st.Factory.Viol...)
 	st.Factory.mu.Unlock()
+	if st.LockMon != nil {
+		st.LockMon.mu.Lock()
+		v = append(v, st.LockMon.Viol...)
+		st.LockMon.mu.Unlock()
+	}
 	if st.State != nil {
 		st.State.mu.Lock()
 		v = append(v, st.State.Viol...)
